@@ -5,7 +5,10 @@ evaluation against the extracted model, on all strings <= 4 (5) over an 8-symbol
 seeded random ones; stream Q: the literal as operand of every string comparison (= != < <= > >= contains
 icontains in, and their negations) against STORED values through Store.QueryIds (plain field, id, fk field,
 string set with anyOf/allOf, fk set) for values that spell words / syntax of the filter language, boundary
-values (empty string, blanks, quotes, control bytes, non-UTF-8 stored bytes, long) and escape-alphabet strings."""
+values (empty string, blanks, quotes, control bytes, non-UTF-8 stored bytes, long) and escape-alphabet strings;
+stream M: filters with SEVERAL comparisons in which literals repeat (identical token, case variant, prefix, escaped
+spelling) across operators, fields, in-lists, set functions and sub-queries, joined by and / or / not, and sequences of
+filters parsed in one process - every literal occurrence must denote its own string (model Lang/StrFilter.v)."""
 import json
 import os
 
@@ -198,6 +201,443 @@ def q_size(case):
     return (Q_PATH_RANK.get(cf[1], 9), int(cf[7]), len(case))
 
 
+# ---- stream M: filters with several comparisons in which literals repeat; sequences of filters ---------------
+M_LHS = {"name": "name", "descr": "descr", "any": "anyOf(tags)", "all": "allOf(tags)", "anyfk": "anyOf(peers.name)"}
+M_ARITY = {"and": 2, "or": 2, "not": 1, "grp": 1, "ne": 1, "em": 1, "cnt": 1, "t": 0, "f": 0}
+M_SUB = ("ne", "em", "cnt")
+
+
+def m_parse_node(tok, pos):
+    k = tok[pos]
+    pos += 1
+    if k == "a":
+        lhs, op, esc, n = tok[pos], tok[pos + 1], tok[pos + 2], int(tok[pos + 3])
+        lits = [unhex(h) for h in tok[pos + 4:pos + 4 + n]]
+        return ("a", lhs, op, esc, lits), pos + 4 + n
+    kids = []
+    for _ in range(M_ARITY[k]):
+        kid, pos = m_parse_node(tok, pos)
+        kids.append(kid)
+    return (k,) + tuple(kids), pos
+
+
+def m_parse(cf):
+    """M <env> <nf> <filter>*nf <nr> <row>*nr  ->  env, [filter trees], [row tokens]"""
+    env, nf = cf[1], int(cf[2])
+    pos, filters = 3, []
+    for _ in range(nf):
+        node, pos = m_parse_node(cf, pos)
+        filters.append(node)
+    return env, filters, cf[pos + 1:]
+
+
+def m_tokens(node):
+    if node[0] == "a":
+        _, lhs, op, esc, lits = node
+        return ["a", lhs, op, esc, str(len(lits))] + [vlib_hex(l) for l in lits]
+    out = [node[0]]
+    for k in node[1:]:
+        out += m_tokens(k)
+    return out
+
+
+def m_line(env, filters, rows):
+    out = ["M", env, str(len(filters))]
+    for f in filters:
+        out += m_tokens(f)
+    return " ".join(out + [str(len(rows))] + list(rows))
+
+
+def m_lit(esc, s):
+    out = bytearray(b'"')
+    for ch in s:
+        if ch in (0x5c, 0x22):
+            out += bytes([0x5c, ch])
+        elif esc == "full" and ch in (9, 10, 12, 13):
+            out += {9: b"\\t", 10: b"\\n", 12: b"\\f", 13: b"\\r"}[ch]
+        else:
+            out.append(ch)
+    return (bytes(out) + b'"').decode("utf-8", "replace")
+
+
+def m_text(node):
+    """the filter text as the harness writes it (for messages only)"""
+    k = node[0]
+    if k == "a":
+        _, lhs, op, esc, lits = node
+        if op in ("in", "notin"):
+            return "%s %s [%s]" % (M_LHS[lhs], Q_OPTEXT[op], ", ".join(m_lit(esc, l) for l in lits))
+        return "%s %s %s" % (M_LHS[lhs], Q_OPTEXT[op], m_lit(esc, lits[0]))
+
+    def wrap(x):
+        return m_text(x) if x[0] in ("a", "t", "f", "grp", "em", "cnt") else "(" + m_text(x) + ")"
+    if k in ("t", "f"):
+        return "true" if k == "t" else "false"
+    if k == "grp":
+        return "( " + m_text(node[1]) + " )"
+    if k == "not":
+        return "not " + wrap(node[1])
+    if k in ("and", "or"):
+        right = m_text(node[2]) if node[2][0] == k else wrap(node[2])
+        return wrap(node[1]) + " " + k + " " + right
+    inner = "from peers where " + m_text(node[1])
+    return {"ne": "not isEmpty(%s)", "em": "isEmpty(%s)", "cnt": "count(%s) > 0"}[k] % inner
+
+
+def m_row(tok):
+    name, descr, tags, peers = tok.split("/")
+    return dict(name=None if name == "~" else unhex(name), descr=None if descr == "~" else unhex(descr),
+                tags=None if tags == "~" else [unhex(h) for h in tags.split(",")],
+                peers=None if peers == "~" else [unhex(h) for h in peers.split(",")])
+
+
+def k_not(v):
+    return None if v is None else (not v)
+
+
+def k_and(a, b):
+    if a is False or b is False:
+        return False
+    return None if (a is None or b is None) else True
+
+
+def k_or(a, b):
+    if a is True or b is True:
+        return True
+    return None if (a is None or b is None) else False
+
+
+def k_any(vs):
+    return True if any(v is True for v in vs) else (None if any(v is None for v in vs) else False)
+
+
+def m_atom(node, row):
+    """what the property demands of one comparison on one row: the literal denotes ITS string, whatever else the filter
+    (or an earlier filter) contains.  None: nothing demanded (as in stream Q)"""
+    _, lhs, op, esc, lits = node
+    s = lits[0]
+    if lhs in ("name", "descr"):
+        x = row[lhs]
+        if x is None:
+            return False if op in ("eq", "in", "contains", "icontains") else None
+        return q_elem(op, x, s, lits)
+    elems = (row["tags"] if lhs in ("any", "all") else row["peers"]) or []
+    bits = [q_elem(op, e, s, lits) for e in elems]
+    if not elems:
+        return None if (lhs == "all" or op in Q_NEGATED) else False
+    if lhs == "all":
+        return False if any(b is False for b in bits) else (None if any(b is None for b in bits) else True)
+    return k_any(bits)
+
+
+def m_eval(node, row):
+    k = node[0]
+    if k == "a":
+        return m_atom(node, row)
+    if k == "t":
+        return True
+    if k == "f":
+        return False
+    if k == "grp":
+        return m_eval(node[1], row)
+    if k == "not":
+        return k_not(m_eval(node[1], row))
+    if k == "and":
+        return k_and(m_eval(node[1], row), m_eval(node[2], row))
+    if k == "or":
+        return k_or(m_eval(node[1], row), m_eval(node[2], row))
+    some = k_any([m_eval(node[1], dict(name=p, descr=None, tags=None, peers=None)) for p in (row["peers"] or [])])
+    return k_not(some) if k == "em" else some
+
+
+def m_expected(cf):
+    env, filters, rows = m_parse(cf)
+    rws = [m_row(r) for r in rows]
+    out = []
+    for f in filters:
+        vs = [m_eval(f, r) for r in rws]
+        out.append("".join("x" if v is None else ("1" if v else "0") for v in vs))
+    return out
+
+
+def m_mismatch(want, fi):
+    """(observation index, row index) of the first observation that contradicts the oracle; observation k < nf: filter k as
+    parsed in sequence, k >= nf: filter k - nf parsed again afterwards"""
+    nf = len(want)
+    obs = fi[1:1 + 2 * nf]
+    if len(obs) != 2 * nf:
+        return (0, 0)
+    for k, got in enumerate(obs):
+        j = q_mismatch(want[k % nf], got)
+        if j is not None:
+            return (k, j)
+    return None
+
+
+def m_atoms(node, under_sub=False):
+    if node[0] == "a":
+        return [(node, under_sub)]
+    out = []
+    for k in node[1:]:
+        out += m_atoms(k, under_sub or node[0] in M_SUB)
+    return out
+
+
+def m_ops(filters):
+    return sorted({a[2] for f in filters for a, _ in m_atoms(f)})
+
+
+M_OP_RANK = ["eq", "neq", "in", "notin", "contains", "ncontains", "icontains", "nicontains", "lt", "le", "gt", "ge"]
+
+
+def m_size(case):
+    """order in which violating cases are preferred as the replay: fewest filters, fewest comparisons, fewest rows, plain
+    fields before sets and sub-queries, shortest"""
+    env, filters, rows = m_parse(case.split())
+    atoms = [a for f in filters for a in m_atoms(f)]
+    parts = sum(1 for r in rows for p in r.split("/") if p != "~")
+    return (len(filters), len(atoms), len(rows), sum(1 for a, sub in atoms if sub or a[1] not in ("name", "descr")), parts, len(case))
+
+
+def m_units(node):
+    """self-contained pieces of a filter: comparisons outside sub-queries, whole sub-queries, sub-queries cut down to one
+    of their comparisons"""
+    k = node[0]
+    if k == "a":
+        return [node]
+    if k in M_SUB:
+        return [node] + [(k, a) for a, _ in m_atoms(node[1])]
+    out = []
+    for kid in node[1:]:
+        out += m_units(kid)
+    return out
+
+
+def m_subtrees(node):
+    out = [node]
+    if node[0] not in M_SUB and node[0] != "a":
+        for kid in node[1:]:
+            out += m_subtrees(kid)
+    return out
+
+
+def m_struct_candidates(cf, k, j):
+    env, filters, rows = m_parse(cf)
+    nf = len(filters)
+    bad = filters[k % nf]
+    units = []
+    for u in m_units(bad):
+        if u not in units:
+            units.append(u)
+    units = units[:8]
+    alts = []                       # replacements of the failing filter
+    for u in units:
+        alts.append(u)
+    for a in units:
+        for b in units:
+            for c in ("and", "or"):
+                alts.append((c, a, b))
+    for st in m_subtrees(bad):
+        alts.append(st)
+    others = [f for i, f in enumerate(filters) if i != k % nf]
+    other_units = []
+    for f in others:
+        for u in [f] + m_units(f):
+            if u not in other_units:
+                other_units.append(u)
+    out = []
+    for rws in ([rows[j]], rows):
+        for alt in alts:
+            out.append(m_line(env, [alt], rws))
+        for o in other_units[:10]:   # the failing filter needs a filter parsed before / after it
+            for alt in [bad] + units:
+                out.append(m_line(env, [o, alt], rws))
+                out.append(m_line(env, [alt, o], rws))
+    out.append(" ".join(cf))
+    seen, uniq = set(), []
+    for l in out:
+        if l not in seen:
+            seen.add(l)
+            uniq.append(l)
+    return uniq[:6000]
+
+
+def m_map_values(cf, fn):
+    env, filters, rows = m_parse(cf)
+
+    def mp(node):
+        if node[0] == "a":
+            return ("a", node[1], node[2], node[3], [fn(l) for l in node[4]])
+        return (node[0],) + tuple(mp(k) for k in node[1:])
+
+    def mrow(tok):
+        parts = []
+        for part in tok.split("/"):
+            parts.append("~" if part == "~" else ",".join(vlib_hex(fn(unhex(h))) for h in part.split(",")))
+        return "/".join(parts)
+    return m_line(env, [mp(f) for f in filters], [mrow(r) for r in rows])
+
+
+def m_value_candidates(cf):
+    """the same case over shorter strings: every literal value v replaced, consistently in filters and rows (and its
+    upper / lower case forms likewise), by each of its substrings"""
+    env, filters, rows = m_parse(cf)
+    vals = []
+    for f in filters:
+        for a, _ in m_atoms(f):
+            for l in a[4]:
+                if l not in vals and 0 < len(l) <= 24:
+                    vals.append(l)
+    out = []
+    for v in vals:
+        subs = []
+        for ln in range(0, len(v)):
+            for st in range(0, len(v) - ln + 1):
+                u = v[st:st + ln]
+                if u not in subs and q_fold(u) is not None:
+                    subs.append(u)
+        for u in subs:
+            def fn(x, v=v, u=u):
+                if x == v:
+                    return u
+                if x == v.upper():
+                    return u.upper()
+                if x == v.lower():
+                    return u.lower()
+                return x
+            out.append(m_map_values(cf, fn))
+    out.append(" ".join(cf))
+    return list(dict.fromkeys(out))[:4000]
+
+
+def m_row_candidates(cf):
+    """the same case with parts of the rows removed (no value / no set), and set parts cut down to one element"""
+    env, filters, rows = m_parse(cf)
+    out = []
+    for mask in range(16):
+        rws = []
+        for r in rows:
+            parts = r.split("/")
+            rws.append("/".join("~" if mask >> n & 1 else p for n, p in enumerate(parts)))
+        out.append(m_line(env, filters, rws))
+        if len(rows) == 1:
+            parts = rws[0].split("/")
+            for n in (2, 3):
+                for el in parts[n].split(","):
+                    if el != parts[n]:
+                        out.append(m_line(env, filters, ["/".join(el if q == n else p for q, p in enumerate(parts))]))
+    return list(dict.fromkeys(out))
+
+
+def m_run(c, harness, lines, tag):
+    wd = os.path.join(c.work, "shrink-" + tag)
+    os.makedirs(wd, exist_ok=True)
+    rin = os.path.join(wd, "in.txt")
+    with open(rin, "w") as f:
+        f.write("\n".join(lines) + "\n")
+    rc, out = vlib.run([harness, "c11", "--out", wd, "--replaycase", rin], timeout=600)
+    if rc != 0:
+        return []
+    return list(zip(vlib.read_lines(os.path.join(wd, "cases.txt")), vlib.read_lines(os.path.join(wd, "impl.txt"))))
+
+
+def m_best(results):
+    best = None
+    for case, i in results:
+        want = m_expected(case.split())
+        mm = m_mismatch(want, i.split())
+        if mm is not None and (best is None or m_size(case) < m_size(best[0])):
+            best = (case, i, want, mm)
+    return best
+
+
+def m_shrink(c, harness, case, mm):
+    best = m_best(m_run(c, harness, m_struct_candidates(case.split(), mm[0], mm[1]), "m1"))
+    if best is None:
+        return None
+    best = m_best(m_run(c, harness, m_value_candidates(best[0].split()), "m2")) or best
+    return m_best(m_run(c, harness, m_row_candidates(best[0].split()), "m4")) or best
+
+
+def m_alone(c, harness, case, mm):
+    """is every comparison of the violating filter evaluated as demanded when it is the only one in a filter?"""
+    env, filters, rows = m_parse(case.split())
+    units = m_units(filters[mm[0] % len(filters)])
+    if len(units) < 2 and len(filters) < 2:
+        return None
+    res = m_run(c, harness, [m_line(env, [u], [rows[mm[1]]]) for u in units], "m3")
+    if len(res) != len(units):
+        return None
+    return all(m_mismatch(m_expected(cs.split()), i.split()) is None for cs, i in res)
+
+
+def m_describe(case, i, want, mm, alone):
+    env, filters, rows = m_parse(case.split())
+    nf = len(filters)
+    k, j = mm
+    obs = i.split()[1:1 + 2 * nf]
+    got = obs[k] if k < len(obs) else "?"
+    texts = [m_text(f) for f in filters]
+    where = "ast symbols" if env == "sym" else "store"
+    seq = ""
+    if nf > 1:
+        seq = " (filter %d of the sequence %s, all parsed before evaluation)" % (k % nf + 1, " ; ".join(repr(t) for t in texts))
+    if k >= nf:
+        seq += " [parsed again after the first evaluation]"
+    if any(ch not in "01" for ch in got) or len(got) != len(rows):
+        return "filter %r%s on %s is not evaluated: %s" % (texts[k % nf], seq, where, got)
+    r = m_row(rows[j])
+    shown = ", ".join("%s=%s" % (n, "no value" if r[n] is None else repr(r[n])) for n in ("name", "descr", "tags", "peers")
+                      if r[n] is not None or n in ("name",))
+    w = want[k % nf]
+    msg = ("filter %r%s on %s: every literal occurrence must denote its own string, so the row {%s} must %sbe selected, but it is%s "
+           "(rows selected %s, expected %s)" % (texts[k % nf], seq, where, shown, "" if w[j] == "1" else "not ",
+                                                " not" if w[j] == "1" else "", got, w))
+    if alone is True:
+        msg += ("; each comparison of this filter alone is evaluated correctly on this row - what a literal denotes depends on "
+                "the other literal occurrences")
+    elif alone is False:
+        msg += "; a comparison of this filter is also wrong on its own"
+    return msg
+
+
+def m_report(c, harness, m_viol, q_keys):
+    """one violation per class (path kind + operators of the smallest violating filter found by shrinking)"""
+    if not m_viol:
+        return
+    groups = {}
+    for v in sorted(m_viol, key=lambda v: m_size(v[0])):
+        env, filters, rows = m_parse(v[0].split())
+        groups.setdefault((env, tuple(m_ops(filters))), []).append(v)
+    reported = {}
+    taken, shrunk = {}, 0
+    for gk in sorted(groups, key=lambda g: (len(g[1]), sorted(M_OP_RANK.index(o) for o in g[1]), m_size(groups[g][0][0]))):
+        if taken.get(gk[0], 0) >= 4 or shrunk >= 40:    # at most four classes per path kind are reported
+            continue
+        shrunk += 1
+        case, i, want, mm = groups[gk][0]
+        small = None if c.replay else m_shrink(c, harness, case, mm)
+        if small is not None:
+            case, i, want, mm = small
+        env, filters, rows = m_parse(case.split())
+        key = ("C11:end-to-end-composed:" if env == "sym" else "C11:stored-composed:") + "+".join(m_ops(filters))
+        atoms = [a for f in filters for a in m_atoms(f)]
+        if len(atoms) == 1 and not atoms[0][1] and key.replace("-composed:", "-") in q_keys:
+            continue      # one comparison alone is wrong: reported by the single-comparison stream Q
+        if key in reported:
+            reported[key][4] += len(groups[gk])
+            continue
+        alone = None if c.replay else m_alone(c, harness, case, mm)
+        reported[key] = [case, i, want, mm, len(groups[gk]), alone]
+        taken[gk[0]] = taken.get(gk[0], 0) + 1
+    for key, (case, i, want, mm, n, alone) in sorted(reported.items()):
+        env, filters, rows = m_parse(case.split())
+        c.violation(key, "%s [%d failing cases of this kind, %d failing multi-comparison cases in all]"
+                    % (m_describe(case, i, want, mm, alone), n, len(m_viol)),
+                    dict(case=case, impl=i, expected=want, filters=[m_text(f) for f in filters], rows=rows,
+                         failing_observation=mm[0], failing_row=mm[1]))
+
+
 def main(argv):
     c = vlib.Check(PID, argv)
     c.cov["trusted_base"] = [
@@ -207,6 +647,10 @@ def main(argv):
         "operator / negation from the operator token, BinaryStringExprNode / InStringArrayExprNode.EvalBool, anyOf / allOf with the "
         "seek short-cut, rowCursorImpl.EvalString / FieldToString on a stored, empty or absent value); compared with Store.QueryIds on "
         "every Q case; icontains is modelled for ASCII text only (the model abstains otherwise, the oracle still applies)",
+        "hand-written model Lang/StrFilter.v of a filter with several comparisons (constant nodes with identity: one per literal "
+        "occurrence allocated by the listener, a new one for the upper-cased operand of icontains, in-lists keep their nodes; and / or / "
+        "not, anyOf / allOf, isEmpty / count over a sub-query); compared with ast.Parse + EvalBool / Store.QueryIdsC / QueryIds on every "
+        "M case",
         "translators/unescape (reads the NewReplacer pairs and the statement shape of ParseZqlString; Properties/C11Gen.v proves "
         "that what it read is the model function) and the documented semantics of strings.NewReplacer / TrimPrefix / TrimSuffix",
         "extraction (ExtrOcamlBasic only) + extraction/c11_driver.ml + drv_common.ml",
@@ -244,6 +688,7 @@ def main(argv):
     distinct = set()
     disagreements = []      # model != impl without a property verdict
     q_viol = {}             # key -> violating Q cases
+    m_viol = []             # violating M cases
     for case, i, m in zip(cases, impl, modl):
         cf, fi, fm = case.split(), i.split(), m.split()
         kind = cf[0]
@@ -300,6 +745,20 @@ def main(argv):
                 disagreements.append((case, i, m))
             if "1" in want and "0" in want:
                 distinct.add(case)
+        elif kind == "M":
+            want = m_expected(cf)
+            mm = m_mismatch(want, fi)
+            if mm is not None:
+                m_viol.append((case, i, want, mm))
+            else:
+                nf = len(want)
+                for k in range(2 * nf):
+                    if k % nf < len(fm) - 1 and fm[1 + k % nf] != "?" and fm[1 + k % nf] != fi[1 + k]:
+                        disagreements.append((case, i, m))
+                        break
+            if any("1" in w and "0" in w for w in want):
+                distinct.add(case)
+    m_report(c, harness, m_viol, set(q_viol))
     for key, lst in sorted(q_viol.items()):
         case, i, want, idx = min(lst, key=lambda v: q_size(v[0]))
         small = None if c.replay else q_shrink(c, harness, case.split(), idx)
@@ -320,9 +779,14 @@ def main(argv):
                      "operators x 7 left-hand sides (ast symbol, stored field, id, fk field, anyOf/allOf string set, anyOf fk set) x 10 "
                      "query contexts, in-lists with 0-3 further literals, over rows holding s, its near misses, the empty string, a "
                      "blank and no value; s ranges over every word of the filter language in 4 letter cases, pieces of filter syntax, "
-                     "those embedded / combined, boundary strings, escape-alphabet strings. Non-trivial: contains a backslash, "
-                     "quote or control character (L), a backslash (T), any body (B), any expressible E case, a Q case whose oracle "
-                     "selects some rows and rejects others; distinct by case text"
+                     "those embedded / combined, boundary strings, escape-alphabet strings. Stream M: sequences of 1-3 filters of "
+                     "1-6 comparisons (all ordered operator pairs over one literal on the same / two fields, the literal next to each "
+                     "of its relatives - case variants, prefix, extension, blanks, escaped spelling -, set-valued left-hand sides, "
+                     "isEmpty / count sub-queries with the literal inside and outside, random and / or / not trees), parsed in "
+                     "order before evaluation and parsed again afterwards, over rows with two fields, a set and an fk set. "
+                     "Non-trivial: contains a backslash, "
+                     "quote or control character (L), a backslash (T), any body (B), any expressible E case, a Q / M case whose "
+                     "oracle selects some rows and rejects others; distinct by case text"
                      % (5 if c.thorough else 4))
     c.cov["samples"] = [dict(case=cases[k], impl=impl[k], model=modl[k]) for k in sorted(set((0, min(1, len(cases) - 1), len(cases) // 2, len(cases) - 1)))]
     try:
